@@ -39,7 +39,7 @@ def run(rep, tier, seed):
         rrs = [ruledrv.rule_recipe(rng, doc, well_typed=True, cast_p=0.4, maxlen=3) for _ in range(n)]
         try:
             if rng.random() < 0.5:
-                e = ruledrv.validate_event(len(events) + 1, rrs, doc)
+                e = ruledrv.validate_event(len(events) + 1, rrs, doc, as_data=rng.random() < 0.3)
                 rec = {"op": "validate", "rules": [ruledrv.lit_rule(r) for r in rrs], "doc": to_lit(doc)}
             else:
                 e = ruledrv.ruletest_event(len(events) + 1, rrs[0], doc, rng.choice(["raw", "Data"]))
